@@ -2,7 +2,7 @@
    This file holds only the property theorems; proofs are in Proofs_Bloom.v
    (and Proofs_Lzw.v for the compression round trip of C25). *)
 From Coq Require Import Permutation.
-From Goloop Require Import lib.Bytes Model_Bloom Proofs_Bloom.
+From Goloop Require Import lib.Bytes Model_Bloom Proofs_Bloom Model_Lzw Proofs_Lzw.
 
 (* every item (address, indexed value at its position) of every log is reported
    present by the merged bloom, for every hash function, every order and every
@@ -66,6 +66,12 @@ Theorem C26_compress_transparent : forall compress decompress,
   forall b, of_compressed decompress (compressed_bytes compress b) = Some b.
 Proof. exact compress_transparent. Qed.
 Print Assumptions C26_compress_transparent.
+
+(* … in particular the LZW codec of common.Compress / common.Decompress (C25) *)
+Theorem C26_compress_transparent_lzw : forall b,
+  of_compressed Model_Lzw.decompress (compressed_bytes Model_Lzw.compress b) = Some b.
+Proof. exact (compress_transparent _ _ lzw_roundtrip). Qed.
+Print Assumptions C26_compress_transparent_lzw.
 
 (* blooms built from logs fit the 256 bytes of LogBytes *)
 Theorem C26_log_bytes_lossless : forall (H : bytes -> N) receipts,
